@@ -208,7 +208,7 @@ def run(ctx):
                 raise MachineryError("broken model %s does not violate any invariant: the contract is vacuous" % name)
             ctx.tlc_runs.append(dict(name=name, expected_violation=r.violation, **r.summary()))
             continue
-        ctx.add_tlc(name, r, exhaustive=name.startswith("MC"))
+        ctx.add_tlc(name, r, exhaustive=True)
         if r.violation:
             ctx.violation("model:%s:%s" % (name, r.violation), r.out[-4000:], dict(kind="tlc_counterexample", run=name))
         ctx.log(name, r.summary())
@@ -223,7 +223,7 @@ def run(ctx):
         longp = [p for p in pk if len(p['syms']) > 2]
         ctx.rng.shuffle(longp)
         pk = short + longp[:3000]
-    NS = 4
+    NS = 4 if quick else 6
     def lz_args(k, shards):
         return dict(known=slices(pk, k, shards)[0], raw=slices(pr, k, shards)[0], rows=slices(rows, k, shards)[0])
     n = run_phase(ctx, "lz", lz_args, None, so, shards=NS)
